@@ -422,6 +422,30 @@ func main() {
 	if len(legacy.Type.Params.List) != 1 || len(legacy.Type.Params.List[0].Names) != 1 {
 		die("%s: PageReqToCosmosAPILegacy does not take one parameter", compat.Label)
 	}
+	// a harmless refactoring may turn the adapter into a wrapper `return helper(from)` around a helper
+	// of the same file that takes the request as its only parameter: follow such wrappers
+	for depth := 0; depth < 3; depth++ {
+		if len(legacy.Body.List) != 1 {
+			break
+		}
+		r, ok := legacy.Body.List[0].(*ast.ReturnStmt)
+		if !ok || len(r.Results) != 1 {
+			break
+		}
+		call, ok := r.Results[0].(*ast.CallExpr)
+		if !ok || len(call.Args) != 1 || !astx.IsIdent(call.Args[0], legacy.Type.Params.List[0].Names[0].Name) {
+			break
+		}
+		id, ok := call.Fun.(*ast.Ident)
+		if !ok {
+			break
+		}
+		callee, ok := compat.Funcs[id.Name]
+		if !ok || callee.Body == nil || callee.Recv != nil || len(callee.Type.Params.List) != 1 || len(callee.Type.Params.List[0].Names) != 1 {
+			break
+		}
+		legacy = callee
+	}
 	from := legacy.Type.Params.List[0].Names[0].Name
 	queryAlias := ""
 	for name, path := range compat.Imports {
